@@ -112,11 +112,15 @@ package layer2
 //@   requires a != nil && lockstate(a.RWMutex) == 0
 //@   ensures result == (name in a.ips) && lockstate(a.RWMutex) == 0
 //@   modifies $held
+// GetStatus is called by the layer-2 status reconciler, concurrently with the handlers (C20: "concurrent status queries
+// ... no data races"): what it hands out is read after the lock is released, so it must not alias the guarded storage
+// (SetBalancer overwrites the elements of the stored slice in place) - a copy with the same content
 //@ func (*Announce).GetStatus
-//@   lockonly
 //@   requires a != nil && lockstate(a.RWMutex) == 0
 //@   ensures lockstate(a.RWMutex) == 0 && lockframe(a.RWMutex)
-//@   modifies $held
+//@   ensures [noGuardedAlias] len(result) == 0 || fresh(result)
+//@   ensures [content] len(result) == len(a.ips[meta.String()]) && (forall i int :: 0 <= i && i < len(result) ==> result[i] == a.ips[meta.String()][i])
+//@   modifies fresh []IPAdvertisement, $held
 //@ func (*Announce).GetInterfaces
 //@   lockonly
 //@   requires a != nil && lockstate(a.RWMutex) == 0
